@@ -596,7 +596,7 @@ func (a *Act) indexAddr(x *ssa.IndexAddr) Val {
 			if _, isAlloc := x.X.(*ssa.Alloc); !isAlloc {
 				a.safe("nil", exprText(a.fn, x.X), app("not", app("=", base.Term, "0")), "nil dereference", x.Pos())
 			}
-			return Val{T: x.Type(), Loc: &Loc{Kind: "elem", Base: base.Term, Idx: app("at", "0", i), Root: "E:" + typeName(at.Elem()), Owner: at.Elem(), T: at.Elem()}}
+			return Val{T: x.Type(), Loc: &Loc{Kind: "elem", Base: base.Term, Idx: i, Root: "E:" + typeName(at.Elem()), Owner: at.Elem(), T: at.Elem()}}
 		}
 		l := *a.objLoc(base)
 		if l.AIdx != "" {
